@@ -13,6 +13,17 @@ for tc in ET.parse(out).getroot().iter('testcase'):
 os.remove(out)
 want = set(base['stable_pass'])
 missing = sorted(want - passed)
+# retry the missing ones individually (timing-based tests are flaky when the machine is loaded)
+still = []
+for m in missing:
+    cls, name = m.split('::')
+    mod, klass = cls.rsplit('.', 1)
+    r = subprocess.run("cd /repo && /venv/bin/python -m pytest -q -p no:cacheprovider '%s.py::%s::%s'" % (mod.replace('.', '/'), klass, name), shell=True, env=env, stdout=subprocess.PIPE, stderr=subprocess.STDOUT, text=True)
+    if r.returncode != 0:
+        still.append(m)
+    else:
+        print("  (passed on individual retry: %s)" % m)
+missing = still
 print(p.stdout[-600:])
 print("stable_pass %d, passed now %d, missing %d" % (len(want), len(passed), len(missing)))
 for m in missing[:30]: print("  MISSING", m)
